@@ -76,6 +76,24 @@ def gen(seed, tier):
                 for sns in (0, 1):
                     path = "m" if (lo // 64 + sew + sns) % 2 else "d"
                     cases.append(("C09-V%d-%d-%d-%d" % (st, sew, sns, lo), "V", "-", "%d:%d:%d:%d:%d:%s" % (st, sew, sns, lo, lo + 64, path)))
+    # velocity squitters whose ME field, read as a Comm-B MB field, is a plausible BDS 5,0 or 6,0 register: a DF17 frame must never
+    # be taken for a Comm-B reply, under any option set (-U -R in particular), first or later frame
+    import props.C10 as c10
+    look = []
+    tries = 0
+    while len(look) < (12 if tier == "quick" else 120) and tries < 400000:
+        tries += 1
+        me = me_velocity(r.choice([1, 2]), 0, r.randint(1, 1023) | 1, 0, r.randint(1, 1023) | 1, r.randint(0, 1), r.randint(0, 1), r.randint(1, 511) | 1,
+                         r.randint(0, 1), r.randint(1, 127))
+        me |= r.getrandbits(5) << 43        # IC / IFR / NUC bits (bits 9-13 of the ME field)
+        v = (17 << 107) | (5 << 104) | (0x4840D6 << 80) | (me << 24)
+        if c10.dec50(v) is not None or c10.dec60(v) is not None:
+            look.append(me)
+    for k, me in enumerate(look):
+        icao = r.choice(ICAOS)
+        for o in ({"U": 1, "R": 1}, {"R": 1}, {"U": 1}, {}):
+            segs = [seg(0, [g.f_df11(icao, ca=5)]), seg(0, [g.f_df17(icao, me)]), seg(0, [g.f_df17(icao, me)])]
+            cases.append(H("C09-k%d-%s" % (k, "".join(sorted(o)) or "n"), dict(o), segs))
     # through the pipeline: first and n-th frame, +/-U
     for i in range(150 if tier == "quick" else 1500):
         icao = r.choice(ICAOS)
